@@ -134,7 +134,7 @@ var (
 
 // getPair returns a fresh pair (or the shared DNS pair: miekg/dns' handler registration is process-global and
 // the DNS server start sleeps one second, so that pair is reused and rebuilt only after a failure).
-func getPair(c config, stdioListener bool) (*vlib.Pair, *vlib.Target, func(failed bool), error) {
+func getPair(c config, stdioListener bool, prep func(*vlib.Target)) (*vlib.Pair, *vlib.Target, func(failed bool), error) {
 	if c.carrier == vlib.CarDNS {
 		dnsMu.Lock()
 		key := fmt.Sprintf("%s/%v", c.name, stdioListener)
@@ -152,6 +152,9 @@ func getPair(c config, stdioListener bool) (*vlib.Pair, *vlib.Target, func(faile
 			if dnsTgt == nil {
 				dnsTgt = vlib.NewTarget("data", nil)
 			}
+			if stdioListener {
+				prep(dnsTgt)
+			}
 			np, err := vlib.StartPair(pairConfig(c, dnsTgt, stdioListener))
 			if err != nil {
 				dnsMu.Unlock()
@@ -159,6 +162,9 @@ func getPair(c config, stdioListener bool) (*vlib.Pair, *vlib.Target, func(faile
 			}
 			dnsPairs[key] = np
 			p = np
+		}
+		if !stdioListener {
+			prep(dnsTgt)
 		}
 		return p, dnsTgt, func(failed bool) {
 			if failed || stdioListener {
@@ -169,6 +175,7 @@ func getPair(c config, stdioListener bool) (*vlib.Pair, *vlib.Target, func(faile
 		}, nil
 	}
 	tgt := vlib.NewTarget("data", nil)
+	prep(tgt)
 	p, err := vlib.StartPair(pairConfig(c, tgt, stdioListener))
 	if err != nil {
 		tgt.Close()
@@ -217,7 +224,18 @@ func runCase(d caseDesc) (problem string, inconclusive bool) {
 			c = x
 		}
 	}
-	p, tgt, done, err := getPair(c, d.StdioListener)
+	up := content(d.ContentKind, d.Key, d.LenUp)
+	down := content((d.ContentKind+1)%5, d.Key+1, d.LenDown)
+	timeout := 30 * time.Second
+	if c.carrier == vlib.CarDNS {
+		timeout = 90 * time.Second
+	}
+	// the target is armed before the pair starts: a standard-stream listener opens its logical connection at start-up
+	var pt *vlib.PreparedTransfer
+	p, _, done, err := getPair(c, d.StdioListener, func(tgt *vlib.Target) {
+		pt = vlib.PrepareTransfer(tgt, vlib.TransferSpec{Up: up, Down: down, UpParts: d.UpParts, DownParts: d.DownParts,
+			Gap: time.Duration(d.GapUs) * time.Microsecond, Duplex: d.Duplex, Timeout: timeout})
+	})
 	if err != nil {
 		if vlib.IsBindError(err) {
 			return "", true
@@ -226,14 +244,7 @@ func runCase(d caseDesc) (problem string, inconclusive bool) {
 	}
 	failed := true
 	defer func() { done(failed) }()
-	up := content(d.ContentKind, d.Key, d.LenUp)
-	down := content((d.ContentKind+1)%5, d.Key+1, d.LenDown)
-	timeout := 30 * time.Second
-	if c.carrier == vlib.CarDNS {
-		timeout = 90 * time.Second
-	}
-	res := vlib.RunTransfer(p, "data", tgt, vlib.TransferSpec{Up: up, Down: down, UpParts: d.UpParts, DownParts: d.DownParts,
-		Gap: time.Duration(d.GapUs) * time.Microsecond, Duplex: d.Duplex, Timeout: timeout})
+	res := pt.Run(p, "data")
 	if off := vlib.FirstDiff(res.GotUp, up); off != -1 {
 		return fmt.Sprintf("target received %d bytes, application wrote %d; first difference at offset %d; %s; log tail: %v",
 			len(res.GotUp), len(up), off, res.Problem, vlib.Tap.Tail(6)), false
